@@ -593,6 +593,8 @@ func (b *Reader) SkipTo(ty, tag byte, require bool) (bool, error) {
 // ReadSliceInt8 reads []int8 for the given length and the require or optional sign.
 func (b *Reader) ReadSliceInt8(data *[]int8, len int32, require bool) error {
 	if len <= 0 {
+		// an empty vector on the wire replaces whatever the destination held
+		*data = make([]int8, 0)
 		return nil
 	}
 
@@ -610,6 +612,8 @@ func (b *Reader) ReadSliceInt8(data *[]int8, len int32, require bool) error {
 // ReadSliceUint8 reads []uint8 force the given length and the require or optional sign.
 func (b *Reader) ReadSliceUint8(data *[]uint8, len int32, require bool) error {
 	if len <= 0 {
+		// an empty vector on the wire replaces whatever the destination held
+		*data = make([]uint8, 0)
 		return nil
 	}
 
